@@ -203,15 +203,18 @@ namespace ip {
 
 	void tcp::socket::close(boost::system::error_code& ec) try
 	{
+		// give up an outstanding connect while the channel and the binding it
+		// was made from are still known
+		abort_connect();
+
 		if (m_channel)
 		{
 			int const remote = m_channel->remote_idx(m_bound_to);
 			route hops = m_channel->hops[remote];
 
-			// if m_connect_handler is still set, it means the connection hasn't
-			// been established yet, and this channel points to the acceptor
-			// socket, not another open TCP connection.
-			if (!hops.empty() && !m_connect_handler)
+			// a connect still in progress was given up above (together with
+			// its channel), so this is an established connection
+			if (!hops.empty())
 			{
 				aux::packet p;
 				p.type = aux::packet::type_t::error;
@@ -332,6 +335,24 @@ namespace ip {
 		post(m_io_service, aux::make_malloc(std::bind(std::move(m_connect_handler)
 			, boost::system::error_code(error::operation_aborted))));
 		m_connect_handler = nullptr;
+
+		if (m_channel)
+		{
+			// tell the other end that nobody is connecting any more: the
+			// acceptor forgets the connection if it still waits in its queue,
+			// the socket it was accepted into sees it reset
+			int const remote = m_channel->remote_idx(m_bound_to);
+			aux::packet p;
+			p.type = aux::packet::type_t::error;
+			p.ec = asio::error::connection_reset;
+			p.from = asio::ip::udp::endpoint(
+				m_bound_to.address(), m_bound_to.port());
+			p.overhead = 40;
+			p.channel = m_channel;
+			p.hops = m_channel->hops[remote];
+			p.seq_nr = m_next_outgoing_seq++;
+			forward_packet(std::move(p));
+		}
 
 		// the connection never came into being. Forget the channel, and detach
 		// from whatever is still on its way to us (the SYN+ACK, or data from a
